@@ -442,3 +442,16 @@ func (s *recvStream) Recv() (*hashmailrpc.CipherBox, error) {
 }
 
 var _ hashmailrpc.HashMailClient = (*Relay)(nil)
+
+// Restart drops every cipher box, as a relay that lost its in-memory state
+// would: open streams fail, and the boxes have to be created again.
+func (r *Relay) Restart() {
+	r.mu.Lock()
+	defer r.mu.Unlock()
+	for id, b := range r.boxes {
+		b.deleted = true
+		kick(b.wake)
+		delete(r.boxes, id)
+	}
+	r.logf("restart", "", "all boxes dropped")
+}
